@@ -117,6 +117,17 @@ def run(ctx):
         path = os.path.join(tmp, f"p{i}.txt")
         open(path, "w").write(A.render_amp(doc))
         pool.append(path)
+    # a file of isobar definitions only: an event type and separately written decays of resonances, no line for the mother itself
+    # (it reads as no complete amplitude; its conversion is the header, the summary of the particles met and no amplitude)
+    ddoc = [["event_type", ["D0", "K-", "pi+", "pi+", "pi-"]]]
+    for r3 in rng.sample(list(A.CASCADE), 2):
+        for r2, b in rng.sample(A.CASCADE[r3], min(2, len(A.CASCADE[r3]))):
+            ddoc.append(["line", ["D", r3, None, None, [A.two_body(rng, r2), ["D", b, None, None, []]]]] + A.coupling(rng))
+    ddoc.append(["line", A.two_body(rng, "KPi00")] + A.coupling(rng))
+    ddoc += A.required_families(ddoc, rng)
+    dpath = os.path.join(tmp, "definitions_only.txt")
+    open(dpath, "w").write(A.render_amp(ddoc))
+    pool.append(dpath)
     shipped = os.path.join(os.environ.get("VERIF_REPO", "/repo"), "models", "DtoKpipipi_v2.txt")
     if tier == "thorough":
         pool.append(shipped)
@@ -143,6 +154,11 @@ def run(ctx):
         hists.append([["read:AmplitudeChain", cart[0]], ["read:GooFitChain", plain[0]], ["cpp", plain[0]], ["py", plain[0]]])
         hists.append([["cpp", cart[0]], ["py", plain[0]], ["read:GooFitPyChain", plain[0]]])
     hists.append([["cpp", pool[0]], ["cpp", pool[2 % len(pool)]], ["cpp", pool[0]], ["py", pool[0]]])
+    # the definitions-only file after files with amplitudes, by the other converter / reader class and by the same one
+    hists.append([["cpp", pool[0]], ["py", dpath]])
+    hists.append([["py", pool[1 % len(pool)]], ["cpp", dpath], ["py", dpath]])
+    hists.append([["read:GooFitChain", pool[0]], ["read:GooFitPyChain", dpath], ["py", dpath], ["cpp", dpath]])
+    hists.append([["cpp", dpath], ["py", pool[0]], ["py", dpath]])
     # files sharing a spline resonance with file-specific constants, converted one after the other by the same converter
     spl = [p for p in pool if "GSpline" in open(p).read()]
     import itertools as _it
